@@ -98,7 +98,7 @@ func (dummyTransport) Close() error                                { return nil 
 func (dummyTransport) Shutdown(ctx context.Context) error          { return nil }
 
 type srvCfg struct {
-	disableNorm, disableKeepalive, stream bool
+	disableNorm, disableKeepalive, stream, preParse bool
 	maxBody                               int
 }
 
@@ -107,7 +107,7 @@ func newEngine(cfg srvCfg, mw ...app.HandlerFunc) *route.Engine {
 	opt.TransporterNewer = func(*config.Options) network.Transporter { return dummyTransport{} }
 	opt.IdleTimeout = time.Second
 	opt.ReadTimeout = time.Second
-	opt.DisablePreParseMultipartForm = true
+	opt.DisablePreParseMultipartForm = !cfg.preParse
 	opt.DisableHeaderNamesNormalizing = cfg.disableNorm
 	opt.DisableKeepalive = cfg.disableKeepalive
 	opt.StreamRequestBody = cfg.stream
@@ -254,7 +254,7 @@ func parseCuts(s string) []int {
 // serve <flags: n=disableNorm k=disableKeepalive s=stream or -> <maxBody> <end: eof|stall> <stream> <cuts>
 //  -> S <n> {head… body ntr {k v}}  R <m> {status close body}  W <wellformed>
 func opServe(a []string) []string {
-	cfg := srvCfg{disableNorm: strings.Contains(a[0], "n"), disableKeepalive: strings.Contains(a[0], "k"), stream: strings.Contains(a[0], "s")}
+	cfg := srvCfg{disableNorm: strings.Contains(a[0], "n"), disableKeepalive: strings.Contains(a[0], "k"), stream: strings.Contains(a[0], "s"), preParse: strings.Contains(a[0], "p")}
 	cfg.maxBody, _ = strconv.Atoi(a[1])
 	stream := unhx(a[3])
 	var seen []string
